@@ -200,6 +200,14 @@ const HOSTILE: [&str; 40] = [
 ];
 
 /// worlds whose dictionaries are built to sit on a documented finding or on a cost extreme
+fn vanishing_world() -> World {
+    let res = dicts::resource_dir("fixture", &[("char.def", "/repo/sudachi/tests/resources/char.def"), ("rewrite.def", "/repo/sudachi/tests/resources/rewrite.def")]);
+    let (sys, users) = dicts::test_dict_bytes(true);
+    let cfg = r#"{"characterDefinitionFile":"char.def","inputTextPlugin":[{"class":"com.worksap.nlp.sudachi.DefaultInputTextPlugin"},{"class":"com.worksap.nlp.sudachi.ProlongedSoundMarkPlugin","prolongedSoundMarks":["ー","-","⁓","〜","〰"],"replacementSymbol":""},{"class":"com.worksap.nlp.sudachi.IgnoreYomiganaPlugin","leftBrackets":["(","（"],"rightBrackets":[")","）"],"maxYomiganaLength":4}],"oovProviderPlugin":[{"class":"com.worksap.nlp.sudachi.SimpleOovPlugin","oovPOS":["名詞","普通名詞","一般","*","*","*"],"leftId":8,"rightId":8,"cost":6000}],"pathRewritePlugin":[]}"#;
+    let dict = dicts::load(cfg, &res, sys, users).expect("vanishing world");
+    World { name: "vanishing".into(), dict: Rc::new(dict), meta: json!({"n_input_plugins": 3, "n_oov": 1, "n_path_rewrite": 0, "has_fallback_oov": true}) }
+}
+
 fn extreme_worlds() -> Vec<World> {
     let res = dicts::resource_dir("fixture", &[
         ("char.def", "/repo/sudachi/tests/resources/char.def"),
@@ -289,6 +297,26 @@ pub fn record(args: &[String]) -> i32 {
     let worlds = tok::fixture_worlds();
     let mut toks: Vec<Sess> = worlds.iter().map(Sess::new).collect();
 
+    // 0a. a configuration whose input plugins can rewrite a non-empty text to nothing (prolonged sound marks collapse to the empty string,
+    //     readings in brackets are removed): texts that vanish entirely, almost, or not at all
+    {
+        let w = vanishing_world();
+        let mut s = Sess::new(&w);
+        for (k, t) in ["ーー", "ー〜ー", "--------", "aーー", "ーーa", "ーー。ーー", "ー", "〜〜〜〜〜〜〜〜〜〜〜〜〜〜〜〜〜〜〜〜", "漢(かな)ーー", "", "ーー", "東京ーー都"].iter().enumerate() {
+            run += 1;
+            run_case(&mut tr, run, &w, &mut s, tok::mode_of(k), &json!({"k": "cps", "cps": cps(t)}), json!({"part": "vanishing", "reuse": false}));
+        }
+    }
+    // 0b. tokenizers with the debug dump switched on (what `sudachi -d` uses), reused for longer and shorter texts
+    for wi in [3usize, 0] {
+        let w = &worlds[wi];
+        let mut s = Sess { tok: StatefulTokenizer::create(w.dict.clone(), true, Mode::C), list: MorphemeList::empty(w.dict.clone()), uses: 0 };
+        for (k, t) in ["東京都に行った。京都にも行く", "京都", "", "に", "東京都に行った。京都にも行くｶﾞｷﾞｸﾞ", "a", "ーー", "東京"].iter().enumerate() {
+            run += 1;
+            s.tok.set_debug(true);
+            run_case(&mut tr, run, w, &mut s, tok::mode_of(k / 3), &json!({"k": "cps", "cps": cps(t)}), json!({"part": "debug"}));
+        }
+    }
     // 1. every hostile unit alone, doubled, between Japanese, in every world
     for (hi, h) in HOSTILE.iter().enumerate() {
         for (wi, w) in worlds.iter().enumerate() {
@@ -451,6 +479,7 @@ pub fn single(args: &[String]) -> i32 {
     let mut tr = Trace::create(&args[0]);
     let mut all = tok::fixture_worlds();
     all.extend(extreme_worlds());
+    all.push(vanishing_world());
     let mut sess: Vec<Option<Sess>> = all.iter().map(|_| None).collect();
     for (k, e) in evs.iter().enumerate() {
         let name = e["world"].as_str().unwrap();
